@@ -90,12 +90,14 @@ Definition make_object (h : heap) (A : alloc) : heap * alloc * hval :=
   (h ++ [OMap []], register A (PMap a), HMap a).
 
 (* v[i:j] (two-index: the capacity extends to the end of the parent's) and v[i:j:j] (three-index, used
-   by the proposed patch).  Go keeps the old pointer when the new capacity is 0. *)
+   by the proposed patch).  Go keeps the old pointer when the new capacity is 0 (the new length is then 0 as
+   well: len <= cap for every Go slice; the model says so explicitly, so that a header with len > cap, which
+   no Go program can build, still denotes its elements). *)
 Definition reslice (three : bool) (v : hval) (i j : nat) : hval :=
   match v with
   | HArr a off _ cap =>
       let ncap := if three then (j - i)%nat else (cap - i)%nat in
-      HArr a (if Nat.eqb ncap 0 then off else (off + i)%nat) (j - i) ncap
+      HArr a (if Nat.eqb ncap 0 && Nat.eqb (j - i) 0 then off else (off + i)%nat) (j - i) ncap
   | _ => HNilArr
   end.
 
@@ -244,6 +246,39 @@ End Update.
 
 (* ---- deleteEmpty(v, a): sweeps, in place, the containers the allocator owns; any other container is
    returned as it is (markers are only ever written into allocated containers) ---- *)
+(* the two loops of deleteEmpty, over the recursive call D *)
+Section SweepLoops.
+Variable D : heap -> hval -> option (heap * hval).
+(* for k, w := range v: delete(v, k) or v[k] = deleteEmpty(w); the map is re-read at every step *)
+Fixpoint sweep_map (a : nat) (ks : list key) (h : heap) : option heap :=
+  match ks with
+  | [] => Some h
+  | k :: r =>
+      match lookup k (kvs_of h a) with
+      | None => sweep_map a r h
+      | Some w =>
+          if h_is_empty w then sweep_map a r (set_obj h a (OMap (filter (fun kv => negb (key_eqb (fst kv) k)) (kvs_of h a))))
+          else match D h w with
+               | None => None
+               | Some (h1, w') => sweep_map a r (set_obj h1 a (OMap (insert k w' (kvs_of h1 a))))
+               end
+      end
+  end.
+(* for _, w := range v (len fixed, cells re-read at every step): compact in place; i = read index,
+   cnt = elements left, j = write index *)
+Fixpoint sweep_arr (a off : nat) (i cnt j : nat) (h : heap) : option (heap * nat) :=
+  match cnt with
+  | O => Some (h, j)
+  | S cnt' =>
+      let w := nth (off + i) (cells_of h a) HNull in
+      if h_is_empty w then sweep_arr a off (S i) cnt' j h
+      else match D h w with
+           | None => None
+           | Some (h1, w') => sweep_arr a off (S i) cnt' (S j) (write_cell h1 a (off + j) w')
+           end
+  end.
+End SweepLoops.
+
 Fixpoint delete_empty (fuel : nat) (h : heap) (A : alloc) (v : hval) : option (heap * hval) :=
   match fuel with
   | O => None
@@ -252,36 +287,10 @@ Fixpoint delete_empty (fuel : nat) (h : heap) (A : alloc) (v : hval) : option (h
       match v with
       | HEmpty => Some (h, HNull)
       | HMap a =>
-          (* for k, w := range v: delete or v[k] = deleteEmpty(w); the map is re-read at every step *)
-          let fix go (ks : list key) (h : heap) : option heap :=
-            match ks with
-            | [] => Some h
-            | k :: r =>
-                match lookup k (kvs_of h a) with
-                | None => go r h
-                | Some w =>
-                    if h_is_empty w then go r (set_obj h a (OMap (filter (fun kv => negb (key_eqb (fst kv) k)) (kvs_of h a))))
-                    else match delete_empty f h A w with
-                         | None => None
-                         | Some (h1, w') => go r (set_obj h1 a (OMap (insert k w' (kvs_of h1 a))))
-                         end
-                end
-            end in
-          match go (map fst (kvs_of h a)) h with Some h' => Some (h', v) | None => None end
+          match sweep_map (fun h w => delete_empty f h A w) a (map fst (kvs_of h a)) h with
+          | Some h' => Some (h', v) | None => None end
       | HArr a off len cap =>
-          (* for _, w := range v (len fixed, cells re-read at every step): compact in place *)
-          let fix go (i : nat) (cnt : nat) (j : nat) (h : heap) : option (heap * nat) :=
-            match cnt with
-            | O => Some (h, j)
-            | S cnt' =>
-                let w := nth (off + i) (cells_of h a) HNull in
-                if h_is_empty w then go (S i) cnt' j h
-                else match delete_empty f h A w with
-                     | None => None
-                     | Some (h1, w') => go (S i) cnt' (S j) (write_cell h1 a (off + j) w')
-                     end
-            end in
-          match go 0%nat len 0%nat h with
+          match sweep_arr (fun h w => delete_empty f h A w) a off 0%nat len 0%nat h with
           | Some (h1, j) => Some (write_cells h1 a (off + j) (repeat HNull (len - j)), HArr a off j cap)
           | None => None
           end
